@@ -518,7 +518,7 @@ def A3_A5_shared(rep, flow: Flow, entry_fqs):
                     seps_ok = _separated(kk)
                     # the stored value must be produced from the same key (loader): its file provenance = the key
                     prov = _value_prov(r, val)
-                    loader_ok = all(p == ("file", kk) for p in prov) if prov else True
+                    loader_ok = all(p == ("file", kk) for p in prov) if (prov and isinstance(kk, tuple) and kk and kk[0] == "fstr") else True
                     if missing:
                         rep.finding("A2", f"{ffq}:{what}:key", f"{where}: value cached in {what} depends on {sorted(missing)} which the key {fmt(kk)} does not contain: a later call with other arguments gets this value")
                         bad = True
